@@ -528,16 +528,45 @@ func families(tier string) []fw.Family {
 	// quick: all sizes x (g1 any, g2 none) + (g1,g2) pairs on the first size x shapes x styles subset
 	radA := []int{len(sizes), nx, len(shapes), len(sts)}
 	radB := []int{nx, nx, len(shapes)}
-	fs := []fw.Family{
-		{Name: "size x one group transform x shape x style", N: oracle.Prod(radA...),
-			Check: func(i int64, r *fw.R) {
-				g := oracle.Digits(i, radA...)
-				check(r, sizes[g[0]], xforms[g[1]], xforms[0], shapes[g[2]], sts[g[3]])
-			},
-			Desc: func(i int64) string {
-				g := oracle.Digits(i, radA...)
-				return document(sizes[g[0]], xforms[g[1]], xforms[0], shapes[g[2]], sts[g[3]])
-			}},
+	// quick: the geometry axes (size x transform x shape) in full under two styles, and the style axis
+	// in full over shapes under three sizes and two transforms; thorough: the full product
+	geoStyles := []int{0, 2}
+	stySizes := []int{0, 3, 7}
+	styXf := []int{0, 6}
+	radA1 := []int{len(sizes), nx, len(shapes), len(geoStyles)}
+	radA2 := []int{len(stySizes), len(styXf), len(shapes), len(sts)}
+	famA := fw.Family{Name: "size x one group transform x shape x style", N: oracle.Prod(radA...),
+		Check: func(i int64, r *fw.R) {
+			g := oracle.Digits(i, radA...)
+			check(r, sizes[g[0]], xforms[g[1]], xforms[0], shapes[g[2]], sts[g[3]])
+		},
+		Desc: func(i int64) string {
+			g := oracle.Digits(i, radA...)
+			return document(sizes[g[0]], xforms[g[1]], xforms[0], shapes[g[2]], sts[g[3]])
+		}}
+	famA1 := fw.Family{Name: "size x one group transform x shape x {default style, fill+stroke}", N: oracle.Prod(radA1...),
+		Check: func(i int64, r *fw.R) {
+			g := oracle.Digits(i, radA1...)
+			check(r, sizes[g[0]], xforms[g[1]], xforms[0], shapes[g[2]], sts[geoStyles[g[3]]])
+		},
+		Desc: func(i int64) string {
+			g := oracle.Digits(i, radA1...)
+			return document(sizes[g[0]], xforms[g[1]], xforms[0], shapes[g[2]], sts[geoStyles[g[3]]])
+		}}
+	famA2 := fw.Family{Name: "3 sizes x 2 group transforms x shape x style", N: oracle.Prod(radA2...),
+		Check: func(i int64, r *fw.R) {
+			g := oracle.Digits(i, radA2...)
+			check(r, sizes[stySizes[g[0]]], xforms[styXf[g[1]]], xforms[0], shapes[g[2]], sts[g[3]])
+		},
+		Desc: func(i int64) string {
+			g := oracle.Digits(i, radA2...)
+			return document(sizes[stySizes[g[0]]], xforms[styXf[g[1]]], xforms[0], shapes[g[2]], sts[g[3]])
+		}}
+	fs := []fw.Family{famA1, famA2}
+	if tier == "thorough" {
+		fs = []fw.Family{famA}
+	}
+	fs = append(fs, []fw.Family{
 		{Name: "two nested group transforms x shape (viewBox with offset, stroked)", N: oracle.Prod(radB...),
 			Check: func(i int64, r *fw.R) {
 				g := oracle.Digits(i, radB...)
@@ -547,7 +576,7 @@ func families(tier string) []fw.Family {
 				g := oracle.Digits(i, radB...)
 				return document(sizes[3], xforms[g[0]], xforms[g[1]], shapes[g[2]], sts[2])
 			}},
-	}
+	}...)
 	if tier == "thorough" {
 		radC := []int{len(sizes), nx, nx, len(shapes), len(sts)}
 		fs = append(fs, fw.Family{Name: "size x two nested group transforms x shape x style (full product)", N: oracle.Prod(radC...),
